@@ -1233,6 +1233,12 @@ func (e *lsEnv) step(c lsCmd, which string, history []string) (res lsStepResult)
 			}
 		}
 	}
+	for _, l := range dry {
+		if _, k := lsFileKey(l.file); l.kind == "would-remove" && k >= 1 {
+			why = append(why, "prune=multi-shard")
+			break
+		}
+	}
 	defer func() { res.class = append(append(res.class, why...), collClass...) }()
 	res.class = []string{kind, fmt.Sprintf("status=%d", ds), fmt.Sprintf("removals=%d", min(nrm, 3)), fmt.Sprintf("index=%d", min(nidx, 3)), fmt.Sprintf("uptodate=%d", min(nutd, 3))}
 	res.sample = map[string]any{"command": strings.Join(e.args(c, false), " "), "preview": dryOut, "forced": forceOut, "status": ds, "preview_error": fmt.Sprint(dryErr), "forced_error": fmt.Sprint(forceErr)}
@@ -1677,6 +1683,28 @@ func lsRun(t *testing.T, which string, n int) {
 					e.mutate(&history)
 				}
 			}
+			// C33: a repository that occupies SEVERAL shard files leaves the selection (deleted, or its root is not synced
+			// next): all of its shards must be announced and removed, none may be left for the next preview to find
+			if which == "C33" && st > 0 {
+				var multi []string
+				for _, sh := range e.readInv() {
+					if c := normalizeSourceOracle(sh.source); sh.num >= 1 && !sh.bad && e.repos[c] != nil && !lsHas(multi, c) {
+						multi = append(multi, c)
+					}
+				}
+				if len(multi) > 0 && e.r.Chance(60) {
+					c := multi[e.r.Intn(len(multi))]
+					if segs := lsSegs(c); e.r.Chance(50) || len(segs) < 2 {
+						os.RemoveAll(e.w + c)
+						e.dropUnder(c)
+						history = append(history, "delete "+c+" (multi-shard)")
+					} else {
+						other := map[string]string{"r1": "/r2", "r2": "/r1", "r3.git": "/r1"}[segs[0]]
+						e.wantRoots = e.r.Pick3([]string{other}, []string{other, "/r3.git"}, []string{other})
+						history = append(history, "next sync leaves out the root of "+c+" (multi-shard)")
+					}
+				}
+			}
 			// adversities in the index directory
 			if e.r.Chance(12) {
 				nm := e.r.Pick([]string{"a", "other/tool", "team/a", "zz"})
@@ -1717,12 +1745,27 @@ func lsRun(t *testing.T, which string, n int) {
 			inv := e.readInv()
 			if len(inv) > 0 && e.r.Chance(25) {
 				c = lsCmd{remove: true, sels: e.pickSelectors(inv)}
+				if which == "C33" && e.r.Chance(25) { // an AMBIGUOUS selector: a second record (another tool's shard under another
+					// name) with the source of an indexed repository, selected by that source: both modes must refuse alike
+					var cands []lsShard
+					for _, sh := range inv {
+						if !sh.bad && strings.HasPrefix(sh.source, "/") && sh.repo != "zz" {
+							cands = append(cands, sh)
+						}
+					}
+					if len(cands) > 0 {
+						sh := cands[e.r.Intn(len(cands))]
+						e.otherToolShard("zz", sh.source)
+						history = append(history, fmt.Sprintf("other-tool shard name=%q source=%q (same source as %q)", "zz", sh.source, sh.repo))
+						c.sels = e.r.Pick3([]string{sh.source}, []string{sh.repo, sh.source}, []string{sh.source + "/.git"})
+					}
+				}
 			} else {
 				c = lsCmd{roots: e.pickRoots()}
 				if e.r.Chance(8) {
 					c.extra = []string{"-file_limit=100000"} // another IndexOptions hash: everything is stale
 				}
-				if e.r.Chance(10) { // a forced sync with a tiny shard limit first: multi-shard repositories (set-up, not a case)
+				if e.r.Chance(map[string]int{"C33": 18}[which] + 10*map[string]int{"C34": 1}[which]) { // a forced sync with a tiny shard limit first: multi-shard repositories (set-up, not a case)
 					pre := c
 					pre.extra = append([]string{"-shard_limit=4000"}, c.extra...)
 					e.exec(pre, true)
